@@ -30,6 +30,18 @@ def tr_flags(log):
     return info
 
 
+def tr_secrets(log):
+    """regenerate Generated/Secrets.lean from passkey.rs, lib.rs, make_credential.rs"""
+    import importlib.util, os
+    here = os.path.dirname(os.path.abspath(__file__))
+    spec = importlib.util.spec_from_file_location("secrets_tr", os.path.join(here, "..", "..", "translate", "secrets.py"))
+    m = importlib.util.module_from_spec(spec)
+    spec.loader.exec_module(m)
+    info = m.main()
+    log.write("translator secrets: %s\n" % info)
+    return info
+
+
 def tr_ctap(log):
     """regenerate Generated/Ctap.lean from /repo/passkey-types/src/ctap2/*.rs"""
     import importlib.util, os
@@ -59,6 +71,22 @@ CRYPTO_TRUSTED = [
 ]
 
 PROPS = {
+    "C06": {
+        "modules": ["PasskeyVerif.Props.C06"],
+        "props_files": ["PasskeyVerif/Props/C06.lean"],
+        "translators": [tr_secrets, tr_flags],
+        "harness": [["gen", "C06"]],
+        "technique": "Lean 4 noninterference theorems over the hand-written ceremony models (responses are independent of the private scalar and, without an evaluation request, of the PRF secrets) plus theorems by decide over facts regenerated from the Rust sources on every run (which key half is attested / stored, what Debug of a passkey renders, derives of the secret-holding structs); every serialisation returned by the real code is scanned by the executable Spec (search, supporting)",
+        "trusted": AUTH_TRUSTED + [
+            "translator translate/secrets.py (impl Debug for Passkey field list; derive lists of Passkey, CredentialExtensions, StoredHmacSecret; CoseKeyPair::from_secret_key builders; the halves used in make_credential.rs) — a shape it does not understand is a translator error = violation",
+            "the scan (Spec/Secrets.lean) searches raw, hex (both cases), decimal-list (blanks ignored), base64 and base64url renderings of each 32-byte secret; planted-secret control lines of every run must be hits",
+            "the ECDSA signature is a function of the private scalar by design (outside the model; scanned like every other output)",
+        ],
+        "assumptions": ["secrets are at least 16 bytes (shorter values are not searched: accidental matches)", "other transformations of a secret (encryption, truncation, reversal) are not searched for"],
+        "level_text": "Kernel-checked: the COSE key attested and the DER key returned are functions of the public point alone; make_credential's and Client::register's responses are equal for every private scalar, and registration's PRF output is equal for every pair of secrets unless an evaluation was asked for (then it is the HMAC of C09); the caller-visible part of an assertion (credential id, authenticator data, user handle, PRF output, message signed, public point) is equal for every stored private scalar; authenticator info does not depend on the store content; regenerated from the source and checked by decide: the attested half is built by new_ec2_pub_key and the stored one by new_ec2_priv_key, Debug of a passkey is hand-written and renders only key type and counter, and neither the passkey nor the secret-holding structs derive Debug or Serialize. Every JSON / CBOR / Debug / raw-U2F serialisation of every returned value of the stream (results, info, errors, stored passkeys' Debug) is scanned against the secrets read back from the store.",
+        "level_note": "Trusted: Lean kernel; axioms propext/Classical.choice/Quot.sound; the hand models (tied to the code by C02/C03/C09's correspondence, which runs the same code paths); the translator; the scan.",
+        "rule": "9 planted-secret controls, then 25 (thorough 200) authenticators (4 hmac-secret configurations, counters on/off, id lengths 16/32/64) each with 2-4 rounds of WebAuthn registration (credProps + PRF evaluation, one excluded) and authentication (PRF), CTAP2 make_credential / get_assertion with hmac-secret + prf, Debug and pretty Debug of every stored passkey after every step, authenticator info, errors, and one U2F registration + authentication; 1368 scans in the quick tier.",
+    },
     "C07": {
         "modules": ["PasskeyVerif.Props.C07"],
         "props_files": ["PasskeyVerif/Props/C07.lean"],
